@@ -91,6 +91,11 @@ namespace TAO_PEGTL_NAMESPACE
             return m_current.byte;
          }
 
+         [[nodiscard]] std::size_t begin_byte() const noexcept
+         {
+            return m_current.byte - std::size_t( m_current.data - m_begin );  // The byte count that belongs to begin().
+         }
+
          [[nodiscard]] std::size_t line() const noexcept
          {
             return m_current.line;
@@ -206,6 +211,11 @@ namespace TAO_PEGTL_NAMESPACE
          [[nodiscard]] std::size_t byte() const noexcept
          {
             return std::size_t( current() - m_begin.data );
+         }
+
+         [[nodiscard]] std::size_t begin_byte() const noexcept
+         {
+            return m_begin.byte;  // The byte count that belongs to begin().
          }
 
          void bump( const std::size_t in_count = 1 ) noexcept
@@ -397,7 +407,7 @@ namespace TAO_PEGTL_NAMESPACE
 
       [[nodiscard]] const char* at( const TAO_PEGTL_NAMESPACE::position& p ) const noexcept
       {
-         return this->begin() + p.byte;
+         return this->begin() + ( p.byte - this->begin_byte() );  // Positions count from the initial byte, which is not 0 e.g. for the input of a rematch.
       }
 
       [[nodiscard]] const char* begin_of_line( const TAO_PEGTL_NAMESPACE::position& p ) const noexcept
